@@ -185,7 +185,15 @@ def _body(case, ctx):
     F0 = f0.astype(np.float64)
     if name != "stretch_rk3":
         want = F0 + a1.astype(np.float64)
-        tol = 16 * eps * (np.abs(F0) + np.abs(a1.astype(np.float64))) + 64 * tiny
+        # the flux is a sum of terms that may cancel; the two separately invoked kernels may round that sum differently
+        # (vectorised vs remainder loops depend on the memory layout), so the scale is the magnitude of the TERMS
+        if name.startswith("dif"):
+            s_terms = 4 * dim * float(step) * fmax
+        elif name.startswith("adv"):
+            s_terms = 8 * dim * float(step) * umax * fmax
+        else:
+            s_terms = 6 * float(step) * umax * fmax
+        tol = 16 * eps * (np.abs(F0) + np.abs(a1.astype(np.float64)) + s_terms) + 64 * tiny
         nontrivial = float(np.max(np.abs(a1))) > 1e-3 * fmax
     else:
         with ctx.repo_call("flux kernel (A^2, A^3)"):
